@@ -1647,8 +1647,12 @@ class PseudoNetCDFFile(PseudoNetCDFSelfReg, object):
                 outf.copyDimension(dv, key=dk, dimlen=dl)
 
             for vk, vv in self.variables.items():
+                isinterp = vv.dimensions == newdim
+                # interpolated values are fractional: integer variables become
+                # double, as in the 1-D branch
+                newtype = 'd' if isinterp and vv.dtype.kind in 'iu' else None
                 nvv = outf.copyVariable(
-                    vv, key=vk, withdata=vv.dimensions != newdim)
+                    vv, key=vk, dtype=newtype, withdata=not isinterp)
 
             Ni, Nk = olddimvals.shape[:dimaxis], olddimvals.shape[dimaxis + 1:]
             s_ = np.s_
